@@ -105,7 +105,11 @@ func (c *Config) Args(port int, health string) []string {
 		a = append(a, "--versioning-dir", c.SB.Ver)
 	}
 	if c.Sidecar {
-		a = append(a, "--sidecar", c.SB.Sidecar)
+		if c.SidecarDir != "" {
+			a = append(a, "--sidecar", c.SidecarDir)
+		} else {
+			a = append(a, "--sidecar", c.SB.Sidecar)
+		}
 	}
 	if c.NoOTmp {
 		a = append(a, "--disableotmp")
